@@ -133,6 +133,11 @@ _add("C15", H("H15_vecmerge", common={"vectors": True}, quick={"wall": "150s", "
 # two vector fields with adjacent ids in the cache
 _add("C16", H("H16_fields", common={"vectors": True}, quick={"wall": "150s", "shards": 16, "param": "maxEvents=5"}, thorough={"wall": "1500s", "shards": 16, "param": "maxEvents=7"}))
 
+# a returned segment does not change when later batches are built (no aliasing of reusable builder memory)
+_add("C10", H("H10_after"))
+_add("C02", H("H10_after"))
+_add("C01", H("H10_after"))
+
 # thorough wall budgets: the first budgeted run of a property gets 600 s, the others 240 s (a thorough check
 # also repeats the quick configurations, which are exhaustive inside their bounds)
 for _pid in PLAN:
